@@ -107,6 +107,10 @@ def families(rng, n):
             "tiny-control-mean": dict(x=np.where(variant == 0, x - x[:nc].mean() + 1e-12 * scale, x),
                                       y=np.abs(base) + 1, c=base),
             "all-zero": dict(x=np.zeros(N), y=np.abs(base) + 1, c=np.zeros(N)),
+            # every observation tied WITHIN each variant, at different levels: the standard error is exactly 0
+            # (small integers: sums and means are exact in binary64, so the variance is exactly 0, not a rounding residue)
+            "const-each-up": dict(x=np.where(variant == 0, 3.0, 5.0), y=np.abs(base) + 1, c=base),
+            "const-each-down": dict(x=np.where(variant == 0, 5.0, 3.0), y=np.abs(base) + 1, c=base),
             "integers": dict(x=np.array([1, 1, 2, 2, 3, 3, 4, 4, 5, 5][:N] + [0] * max(0, N - 10)),
                              y=np.ones(N, dtype=int), c=np.array(([0, 1] * N)[:N])),
         }
@@ -205,8 +209,44 @@ def search(chk: Check, n_big, kinds, salt=0):
                 if not ((want_inf and math.isinf(got) and got > 0) or (not want_inf and math.isnan(got))):
                     chk.fail("division by an exactly zero control mean does not follow the documented rule",
                              dict(input=inp, treatment=r.treatment, rel_effect_size=got))
+            # a statistic whose standard error is EXACTLY zero follows the division rule: x/0 = +inf for x > 0, NaN otherwise
+            if fname.startswith("const-each") and r.control != r.treatment:
+                want_inf = r.effect_size > 0
+                got = float(r.statistic)
+                if not ((want_inf and math.isinf(got) and got > 0) or (not want_inf and math.isnan(got))):
+                    chk.fail("with a standard error of exactly zero the statistic does not follow the documented division "
+                             "rule (x/0 = +inf for x > 0, NaN otherwise)",
+                             dict(input=inp, effect_size=r.effect_size, statistic=got))
             if len(chk.cov["samples"]) < 5 and ki == 0:
                 chk.sample(dict(**inp, mean=[r.control, r.treatment, r.pvalue], ratio_pvalue=res["ratio"].pvalue))
+        # the same data handed over as a dict of hand-built Aggregates holding plain Python floats (aggregated input is
+        # a documented input kind of analyze)
+        A = tt.aggr.Aggregates
+        names = ["x", "y", "c"]
+        aggs = {}
+        for g in (0, 1):
+            sel = {k: np.asarray(cols[k], dtype=float)[v == g] for k in names}
+            ng = int((v == g).sum())
+            aggs[g] = A(ng, {k: float(a.mean()) for k, a in sel.items()},
+                        {k: float(a.var(ddof=1)) for k, a in sel.items()},
+                        {(a_, b_): float(np.cov(sel[a_], sel[b_], ddof=1)[0, 1]) for i_, a_ in enumerate(names)
+                         for b_ in names[i_ + 1:]})
+        alt, ev, ut = cells[fi % len(cells)]
+        chk.case(("degenerate", fname.split("/")[0], "aggregates-dict", alt, ev, ut))
+        chk.branch("input:aggregates-dict")
+        with np.errstate(all="ignore"):
+            for name, m in (("mean", tt.Mean("x", alternative=alt, equal_var=ev, use_t=ut)),
+                            ("mean_cov", tt.Mean("x", "c", alternative=alt, equal_var=ev, use_t=ut)),
+                            ("ratio", tt.RatioOfMeans("x", "y", alternative=alt, equal_var=ev, use_t=ut)),
+                            ("ratio_cov", tt.RatioOfMeans("x", "y", "c", alternative=alt, equal_var=ev, use_t=ut))):
+                try:
+                    m.analyze(aggs, 0, 1)
+                except Exception as ex:  # noqa: BLE001
+                    chk.fail("analysis raised on degenerate but valid data",
+                             dict(input=dict(family=fname, input="dict of hand-built Aggregates (plain floats)",
+                                             cell=[alt, ev, ut], seed=chk.seed), metric=name, error=repr(ex),
+                                  aggregates={g: repr(a) for g, a in aggs.items()}))
+                    break
 
 
 def main():
